@@ -65,18 +65,24 @@ type concEntity struct {
 func CheckConcurrentReads(run *report.Run, rounds int) {
 	defer restful.SetCompressorProvider(restful.NewSyncPoolCompessors())
 	bad := 0
-	for _, prov := range []string{"bounded2", "bounded1", "bounded0", "pool"} {
-		switch prov {
-		case "bounded2":
-			restful.SetCompressorProvider(restful.NewBoundedCachedCompressors(2, 2))
-		case "bounded1":
-			restful.SetCompressorProvider(restful.NewBoundedCachedCompressors(1, 1))
-		case "bounded0":
-			restful.SetCompressorProvider(restful.NewBoundedCachedCompressors(0, 0))
-		default:
-			restful.SetCompressorProvider(restful.NewSyncPoolCompessors())
-		}
+	for _, prov := range []string{"bounded2", "bounded3", "bounded1", "bounded0", "pool"} {
 		for round := 0; round < rounds; round++ {
+			// every other round starts on a provider fresh from its constructor (what it was pre-filled
+			// with is in use), the rounds in between on one that has been through a round
+			if round%2 == 0 {
+				switch prov {
+				case "bounded2":
+					restful.SetCompressorProvider(restful.NewBoundedCachedCompressors(2, 2))
+				case "bounded3":
+					restful.SetCompressorProvider(restful.NewBoundedCachedCompressors(3, 3))
+				case "bounded1":
+					restful.SetCompressorProvider(restful.NewBoundedCachedCompressors(1, 1))
+				case "bounded0":
+					restful.SetCompressorProvider(restful.NewBoundedCachedCompressors(0, 0))
+				default:
+					restful.SetCompressorProvider(restful.NewSyncPoolCompessors())
+				}
+			}
 			const k = 4
 			var meet sync.WaitGroup
 			meet.Add(k)
